@@ -59,7 +59,7 @@ CHECKS = {
  "C16": dict(
    level="exploration", ref="4/C16",
    text="Salvage pass over post-fault state: every message the streaming consumer recovers from faulted media and from the foreign-ECU dialect stub is re-serialised; when the result has the length its header declares it must parse back identically (floats by bits) with nothing left, serialise to the same bytes again, and the salvaged stream read back by a fresh consumer under a different delivery script must yield the same sequence.",
-   note="Weakest fit of the nine (DESIGN.md 4/C16): the scheduler contributes only delivery; kept because the inputs (parser outputs outside the writer's own range) are exactly what fault injection on a stored stream produces.",
+   note="Weakest fit of the nine (DESIGN.md 4/C16): the scheduler contributes only delivery; kept because the inputs (parser outputs outside the writer's own range) are exactly what fault injection on a stored stream produces. Decided for the crate as compiled with opt-level 2 (the harness profile): a change whose effect the optimiser removes (seeded/C16l, a float widened and narrowed again, which quiets a signalling NaN only in an unoptimised build) is not visible to it.",
    technique="deterministic simulation: storage-fault injection + dialect stub producer, recovery-idempotence oracle over salvaged streams, seeded search, replay files"),
 }
 
